@@ -542,6 +542,10 @@ def _run(sc, tape):
     probes['tiles_required_removed'] = result.get('removed', 0)
     probes['tiles_required_kept'] = result.get('kept', 0)
     probes['mode_' + sc['mode']] = 1
+    if sc['grid'].get('num_levels', 0) > 6:
+        probes['deep_pyramid'] = 1
+    if sc.get('tz', 'UTC') != 'UTC':
+        probes['local_time_zone_not_utc'] = 1
     return {'violation': v, 'digest': C.digest_of(sc, sched.log if onsim else len(sched.log), w.fs.op_count, result.get('removed'), result.get('kept')),
             'nontrivial': result.get('removed', 0) > 0 and result.get('kept', 0) > 0, 'steps': sched.steps,
             'sim_time': clock.now - 1.7e9, 'faults': {}, 'probes': probes, 'unspecified': unspecified[0],
